@@ -24,7 +24,9 @@ def main():
     run.rule = ('exhaustive: 7 letters x alterations -3..3 x octaves -1..9 = 539 spellings, each driven through Import.Export.Export on '
                 'real objects; non-trivial = spellings with an accidental or more than one letter')
     run.add_tlc(tlc.run_tlc('MC_PitchCodec', workers=4, timeout=600))
-    recs = [a.replay_case['case']['record']] if a.replay_case else pitchrec.record_codec()
+    recs = pitchrec.record_codec()
+    if a.replay_case:
+        recs = flat.fresh_record(recs, a.replay_case['case']['record'], ('op', 'l', 'a', 'o'))
     if not a.replay_case:
         def corrupt(rs):
             i = next(i for i, r in enumerate(rs) if r['a'] == 1)
